@@ -71,8 +71,8 @@ func c12Scenarios(tier string) []*Scenario {
 				return alive == want
 			}
 			sc := &Scenario{
-				ID:       fmt.Sprintf("c12-%s-ended[%s]", sh.id, strings.Join(endedNames, "")),
-				YAML:     yaml, Procs: procs, K: 1, Ordered: true, TickBudget: 1,
+				ID:   fmt.Sprintf("c12-%s-ended[%s]", sh.id, strings.Join(endedNames, "")),
+				YAML: yaml, Procs: procs, K: 1, Ordered: true, TickBudget: 1,
 				API:      [][]APICall{{{Op: "shutdown", When: allUp}}},
 				MapSites: []string{"runningProcessesReverseDependencies", "shutDownInOrder", "ShutDownProject"},
 			}
